@@ -521,12 +521,6 @@ def on_job_done(job, rc, out, err, res):
             job.name, _field(out, 'DIGEST'), _field(nout, 'DIGEST')))
         return True
     res.stat('digests_equal', 1)
-    if _field(out, 'TAINTED') is not None:
-        # handshake harness self-check: the secret must have reached the master secret
-        if int(_field(out, 'TAINTED')) <= 0:
-            res.inconclusive.append('%s: taint did not reach the master secret' % job.name)
-            return True
-        res.stat('handshake_master_secret_tainted', 1)
     lib, har, other = classify(errors)
     nrep = sum(r['count'] for r in lib)
     res.stat('reports_total_dynamic', nrep + sum(r['count'] for r in har))
@@ -573,6 +567,15 @@ def on_job_done(job, rc, out, err, res):
         what = ('secret-dependent %s in %s (%s:%s `%s`), %d site(s), %d dynamic' % (
             '/'.join(kinds), fn, r['file'], r['line'], r['srcline'][:80], len(rs), sum(x['count'] for x in rs))).replace('|', '/')
         res.viol('C08:ct:%s:%s' % (entry, fn), what, case + ' impl=%s stack=%s' % (impl, r['stack']), job)
+    if _field(out, 'TAINTED') is not None:
+        # handshake harness self-check: the secret must have reached the master secret
+        # (static ECDH with an invalid point: the point is refused without using the scalar and the random
+        # premaster that replaces it is not key-derived, so nothing secret reaches the master secret)
+        if int(_field(out, 'TAINTED')) <= 0 and 'ecdh_bad_point' not in job.args:
+            res.inconclusive.append('%s: taint did not reach the master secret' % job.name)
+            seen['(taint-flow)'] = []
+        else:
+            res.stat('handshake_master_secret_tainted', 1)
     if not seen:
         res.stat('entries_clean_or_allowlisted', 1)
         res.dist('config', '%s/%s/%s' % (entry, impl, fl))
